@@ -129,14 +129,15 @@ def one(ctx, i):
     peak_unlimited = base.rec.max_inflight_fn
     b = norm(base)
     for k in (1, 2, 3, 4):
-        for pol in ("first", "last", "rand"):
+        for pol in ("first", "last", "rand", "burst", "burst"):
             if ctx.tier == "quick" and pol == "rand" and rng.random() < 0.5:
                 continue
-            sched = rt.Sched(default=pol, rng=rng)
+            sched = rt.Sched(default=pol, rng=rng) if pol != "burst" else rt.Sched(default="rand", rng=rng, burst=(0.6, 6))
             procs = [ARec("y", rng, 2)] if rng.random() < 0.3 else None
             o = core.execute(spec, inputs, "async", sched=sched, max_concurrency=k, processors=procs, **map_kw)
             ctx.obs["limited_runs"] += 1
             ctx.obs["quiescent_points"] += sched.quiescent_points
+            ctx.obs["burst_releases"] += sched.bursts
             ctx.obs["bodies_entered"] += o.rec.count("enter")
             ctx.obs["handler_bodies_entered"] += sum(1 for e in o.rec.ev if e[0] == "enter" and rt.KIND.get(e[1]) == "int-async")
             c2 = {**case, "k": k, "policy": pol, "yield_injection": bool(procs)}
